@@ -166,3 +166,47 @@ pub fn long_word_titles(l: L) -> Vec<String> {
     }
     out
 }
+
+/// Very long texts: k distinct corpus words joined by single spaces (k words ~ 4-5k characters for k = 1000).
+pub fn long_text(k: usize, offset: usize) -> String {
+    let words = corpus_en_words();
+    let mut out: Vec<&str> = Vec::with_capacity(k);
+    let mut i = offset;
+    while out.len() < k {
+        let w = &words[i % words.len()];
+        if w.chars().count() >= 3 {
+            out.push(w);
+        }
+        i += 1;
+    }
+    out.join(" ")
+}
+
+/// Function words that are prefixes of other function words of the same language (of/off, un/una, на/над ...),
+/// from the frozen list, plus two content words: titles over these exercise the deferral of function-word
+/// matches together with joined-word attempts on the following words.
+pub fn fw_prefix_lexicon(l: L) -> Vec<String> {
+    let fw: Vec<&str> = crate::refs::frozen_function_words(l).iter().copied().filter(|w| w.chars().all(|c| c.is_alphabetic())).collect();
+    let mut out: Vec<String> = Vec::new();
+    for a in &fw {
+        let la = a.chars().count();
+        if la < 2 || la > 3 {
+            continue;
+        }
+        for b in &fw {
+            if b.chars().count() == la + 1 && b.starts_with(a) && !out.contains(&a.to_string()) && out.len() < 4 {
+                out.push(a.to_string());
+                out.push(b.to_string());
+            }
+        }
+    }
+    let lex = lexicon(l);
+    // a function word that is nobody's prefix, and two content words
+    if let Some(f) = fw.iter().find(|w| w.chars().count() == 3 && !out.contains(&w.to_string())) {
+        out.push(f.to_string());
+    }
+    out.push(lex[4].to_string());
+    out.push(lex[3].to_string());
+    out.truncate(7);
+    out
+}
